@@ -45,7 +45,7 @@ PLAN = {
 }
 _UID = itertools.count()
 OUTCOMES = ["fail", "fail", "response", "pass", "pass", "info", "fingerprint", "metadata", "metadata_key", "none", "nonresp",
-            "raise", "skip", "missing_req", "missing_group", "dep_failed", "disabled", "badkey_none", "badkey_empty", "badkey_int",
+            "raise", "raise_content", "skip", "missing_req", "missing_group", "dep_failed", "disabled", "badkey_none", "badkey_empty", "badkey_int",
             "badkey_bytes", "reserved_type", "reserved_keyname", "size_under", "size_at", "size_over", "nokey_metadata_with_key",
             "nonresp_false", "nonresp_zero", "nonresp_empty_list", "nonresp_empty_dict", "nonresp_empty_str", "nonresp_true", "nonresp_str"]
 HEADING = {"rule": "reports", "pass": "pass", "info": "info", "fingerprint": "fingerprints", "none": "none"}
@@ -160,6 +160,9 @@ def run_case(spec, ctx):
                     return {"false": False, "zero": 0, "empty_list": [], "empty_dict": {}, "empty_str": "", "true": True, "str": "text"}[oc[8:]]
                 if oc == "raise":
                     raise ValueError("rule-body-%d" % _i)
+                if oc == "raise_content":
+                    from insights.core.exceptions import ContentException
+                    raise ContentException("rule-body-content-%d" % _i)
                 if oc == "skip":
                     raise SkipComponent("deliberate")
                 if oc == "badkey_none":
@@ -375,7 +378,7 @@ def run_case(spec, ctx):
                             notexp = [dr.get_name(present)]
                             if not all(n in details for n in expnames) or any(n in details for n in notexp) or sk[0].get("reason") != "MISSING_REQUIREMENTS":
                                 ctx.violation("skip-entry-names-wrong-dependencies", dict(w, details=details[:300]), spec=case)
-                elif oc.startswith("nonresp_") or oc in ("nonresp", "raise", "badkey_none", "badkey_empty", "badkey_int", "badkey_bytes", "reserved_type", "reserved_keyname",
+                elif oc.startswith("nonresp_") or oc in ("nonresp", "raise", "raise_content", "badkey_none", "badkey_empty", "badkey_int", "badkey_bytes", "reserved_type", "reserved_keyname",
                             "nokey_metadata_with_key"):
                     if found or sk:
                         ctx.violation("rejected-rule-result-reported", dict(w, found=[h for h, e in found], skips=len(sk)), spec=case)
